@@ -124,13 +124,13 @@ def cases(rng, tier):
             if ar and rng.random() < 0.3:
                 ar[rng.randrange(len(ar))] = 3 - ar[0] if rng.random() < 0.7 else 3
             yield ("validate", {"what": "basis", "arities": ar, "ncoeffs": len(ar) + rng.choice([0, 0, 0, 1, -1]) if ar else rng.choice([0, 1])})
-    for _ in range(N // 2):
+    for _ in range(N):
         p = cutfind.gen_case(rng, tier, exact=True, restricted=False)
-        cls = rng.choice(["width", "gamma", "backjumps", "ccx", "valid"])
+        cls = rng.choice(["width", "gamma", "gamma", "backjumps", "ccx", "valid"])
         if cls == "width":
             p["width"] = rng.choice([0, -1, -5])
         elif cls == "gamma":
-            p["max_gamma"] = rng.choice([0.5, 0.0, -1.0, 0.999999, 1e-9])
+            p["max_gamma"] = rng.choice([0.5, 0.25, 0.0, -1.0, 0.999999, 1e-9, 0.75])
         elif cls == "backjumps":
             p["max_backjumps"] = rng.choice([-1, -10])
         elif cls == "ccx" and p["nq"] >= 3:
